@@ -617,7 +617,8 @@ def desugar_for_loops(text, spec, where, log):
           while NAME < it_NAME.len() { let PAT = <elem>; NAME = NAME + 1; BODY } }
 
     with <elem> = `it_NAME[NAME]` (mode 'val', element type is Copy) or `&it_NAME[NAME]`
-    (mode 'ref', iteration over `&vec` / a slice).  This is the meaning of the `for` loop
+    (mode 'ref', iteration over `&vec` / a slice), or `(NAME, &it_NAME[NAME])` for
+    `EXPR.iter().enumerate()` (mode 'enum_ref').  This is the meaning of the `for` loop
     for these containers; it lets invariants talk about the position NAME and lets Verus
     accept `continue` in the body.  spec = {loop ordinal: (NAME, mode)}; ordinals count all
     loops of the item in textual order and do not change."""
@@ -633,7 +634,15 @@ def desugar_for_loops(text, spec, where, log):
         pat = text[kw_off + 3:in_kw].strip()
         expr = text[in_kw + 2:body].strip()
         close = rsitems.match_bracket(text, code, body)
-        elem = ('it_%s[%s]' if mode == 'val' else '&it_%s[%s]') % (name, name)
+        if mode == 'enum_ref':
+            # `for (i, x) in EXPR.iter().enumerate()`: the position is the loop counter itself
+            m_ = re.search(r'\s*\.iter\(\)\s*\.enumerate\(\)$', expr)
+            if not m_:
+                raise ExtractError('%s: desugar_for: loop #%d is not over `.iter().enumerate()`' % (where, ordinal))
+            expr = expr[:m_.start()]
+            elem = '(%s, &it_%s[%s])' % (name, name, name)
+        else:
+            elem = ('it_%s[%s]' if mode == 'val' else '&it_%s[%s]') % (name, name)
         head = '{ let it_%s = %s; let mut %s: usize = 0; while %s < it_%s.len() ' % (name, expr, name, name, name)
         # keep the line structure: header text is replaced on its own line(s)
         nl = text[kw_off:body].count('\n')
